@@ -16,10 +16,11 @@ func main() {
 	work := flag.String("work", "/tmp/probe-work", "")
 	vers := flag.Bool("versioning", false, "")
 	side := flag.Bool("sidecar", false, "")
+	extra := flag.String("extra", "", "extra gateway arguments (before the backend sub-command), space separated")
 	flag.Parse()
 	os.RemoveAll(*work)
 	os.MkdirAll(*work, 0o755)
-	cfg, err := gw.NewStorage(gw.Config{Bin: *bin, Work: *work}, *vers, *side)
+	cfg, err := gw.NewStorage(gw.Config{Bin: *bin, Work: *work, ExtraArgs: strings.Fields(*extra)}, *vers, *side)
 	if err != nil {
 		panic(err)
 	}
